@@ -3404,6 +3404,13 @@ class Value(WithArithmeticMethods, _protocols.ValueProtocol, _display.PrettyPrin
                     "Set replace_graph_outputs=True or replace the graph output frist before "
                     "calling replace_all_uses_with."
                 )
+            # Check that the replacement can become an output of the graph before
+            # replacing anything, so that a rejected call changes nothing
+            if replacement._graph is not None and replacement._graph is not graph:  # pylint: disable=protected-access
+                raise ValueError(
+                    f"{replacement!r} is already owned by a different graph and cannot replace "
+                    f"{self!r} as an output of graph {graph.name!r}."
+                )
 
             for i, output in enumerate(graph.outputs):
                 if output is self:
